@@ -327,6 +327,7 @@ def c02(tier, seed):
     scs += canvas_gen("C02", v, "frame", 3, 4, draws=2, simulate=4000 if th else 600, depth=6, seed=seed, salt=seed)
     scs += canvas_gen("C02", v, "clip", 3, 3, simulate=2000 if th else 300, depth=5, seed=seed + 1, salt=seed)
     scs += canvas_gen("C02", v, "frame", 3, 3, draws=2, simulate=1500 if th else 200, depth=6, seed=seed + 2, salt=seed, size=(9, 6))
+    scs += drive("C02", "canvas", seed, 3000 if th else 400)
     v.exhaustive = True
     canvas_validate("C02", v, scs, "all", {"C02", "C02N", "C06L"})
     v.samples = [scs[0], scs[-1]]
@@ -346,6 +347,7 @@ def c03(tier, seed):
     scs += canvas_gen("C03", v, "layer", 3, 3, simulate=2000 if th else 300, depth=6, seed=seed + 1, salt=seed + 3)
     scs += canvas_gen("C03", v, "layerclip", 3, 4 if th else 1, salt=seed + 4)
     scs += canvas_gen("C03", v, "frame", 3, 3, draws=2, simulate=1500 if th else 200, depth=6, seed=seed + 2, salt=seed + 5, size=(9, 6))
+    scs += drive("C03", "canvas", seed + 100, 3000 if th else 400)
     v.exhaustive = True
     canvas_validate("C03", v, scs, "all", {"C03"})
     v.samples = [scs[0], scs[-1]]
@@ -435,6 +437,7 @@ def c05(tier, seed):
     scs = canvas_gen("C05", v, "clip", 2, 12 if th else 5, salt=seed)
     scs += canvas_gen("C05", v, "clip", 3, 2 if th else 1, salt=seed + 1) if th else []
     scs += canvas_gen("C05", v, "clip", 5, 3, draws=2, simulate=5000 if th else 900, depth=9, seed=seed, salt=seed)
+    scs += drive("C05", "canvas", seed + 200, 2500 if th else 300)
     v.exhaustive = True
     canvas_validate("C05", v, scs, "all", {"C02", "C03", "C02N", "C06D"})
     v.samples = [scs[0], scs[-1]]
@@ -457,6 +460,7 @@ def c06(tier, seed):
     scs = canvas_gen("C06", v, "layer", 2, 10 if th else 3, salt=seed)
     scs += canvas_gen("C06", v, "layerclip", 3, 6 if th else 2, salt=seed + 1)
     scs += canvas_gen("C06", v, "layer", 5, 3, draws=3, simulate=5000 if th else 900, depth=10, seed=seed, salt=seed)
+    scs += drive("C06", "canvas", seed + 300, 2500 if th else 300)
     v.exhaustive = True
     canvas_validate("C06", v, scs, "all", {"C03", "C06L", "C06D", "C11T", "C02", "C02N", "C07"},
                     only_panic_ops={"push_layer", "pop_layer"})
@@ -475,6 +479,7 @@ def c10(tier, seed):
     v.trusted = ["harness interpreter, state re-establishment (harness/src/canvas.rs)", "cfg(raqote_verif) idle hook"]
     scs = canvas_gen("C10", v, "history", 1, 6 if th else 3, draws=3, salt=seed)
     scs += canvas_gen("C10", v, "history", 4, 4, draws=4, simulate=6000 if th else 350, depth=10, seed=seed, salt=seed)
+    scs += drive("C10", "canvas-history", seed + 400, 2500 if th else 300)
     v.exhaustive = True
     canvas_validate("C10", v, scs, "all", {"C10", "C10I"})
     v.samples = [scs[0], scs[-1]]
@@ -531,6 +536,7 @@ def c18(tier, seed):
     selfcheck("C18", v, seed, 20000 if th else 5000)
     scs = canvas_gen("C18", v, "frame", 2, 28 if th else 8, salt=seed + 11)
     scs += canvas_gen("C18", v, "layer", 4, 3, draws=3, simulate=3000 if th else 500, depth=9, seed=seed, salt=seed + 11)
+    scs += drive("C18", "canvas", seed + 500, 2500 if th else 300)
     scs += known_scenarios("C18", "canvas")
     canvas_validate("C18", v, scs, "all", {"C18"})
     conv = drive("C18", "views", seed, 256)
@@ -637,6 +643,7 @@ def c13(tier, seed):
     g, scs = gen_scenarios("C13", "Gen_Shade", env={"KIND": "image", "SUB": 1 if th else 2, "SALT": seed}, timeout=1500)
     v.add_tlc(g)
     v.exhaustive = th
+    scs += drive("C13", "shade-image", seed, 4000 if th else 600)
     simple_validate("C13", v, scs, "all", "Trace_Shade", sigfn=lambda sc, tup: {"fam": "shade", "kind": "image", "via": sc.get("via")})
     v.samples = [scs[0], scs[-1]]
     return v.finish()
@@ -656,6 +663,7 @@ def c12(tier, seed):
         v.add_tlc(g)
         scs += s1
     v.exhaustive = th
+    scs += drive("C12", "shade-grad", seed, 2500 if th else 250)
     scs += known_scenarios("C12", "shade")
     simple_validate("C12", v, scs, "all", "Trace_Shade",
                     sigfn=lambda sc, tup: {"fam": "shade", "kind": sc["src"]["kind"],
@@ -700,6 +708,7 @@ def c04(tier, seed):
         scs = [s for k, s in enumerate(scs) if k % 3 == seed % 3] if len(scs) > 900 else scs
     v.exhaustive = th
     scs += extra_scenarios("C04")
+    scs += drive("C04", "stroke", seed, 2000 if th else 250)
     simple_validate("C04", v, scs, "all", "Trace_Stroke", sigfn=stroke_sig, timeout=3000)
     # curved paths stroked with round joins (margin 1 px): the tube of half the width around the curve
     g, cs = gen_scenarios("C04", "Gen_Curve", env={"FAM": "cstroke", "NOPS": 4, "NVAR": 1, "SALT": seed}, simulate=1500 if th else 120,
@@ -739,6 +748,7 @@ def c09(tier, seed):
     g, s1 = gen_scenarios("C09", "Gen_Stroke", env={"FAMILY": 5, "DASH": 2, "NVAR": 2 if th else 1, "NH": 12 if th else 5, "SALT": seed})
     v.add_tlc(g)
     scs += s1
+    scs += drive("C09", "dash", seed, 2000 if th else 250)
     scs += known_scenarios("C09", "stroke")
     v.exhaustive = th
     simple_validate("C09", v, scs, "all", "Trace_Dash", sigfn=stroke_sig, timeout=3000)
@@ -764,6 +774,7 @@ def c08(tier, seed):
     g, s2 = gen_scenarios("C08", "Gen_Curve", env={"NOPS": 5, "NVAR": 1, "SALT": seed}, simulate=2500 if th else 450, depth=14, seed=seed, workers=1)
     v.add_tlc(g)
     scs += s2
+    scs += drive("C08", "curve", seed, 1500 if th else 150)
     v.exhaustive = False
     simple_validate("C08", v, scs, "all", "Trace_Curve", sigfn=lambda sc, tup: {"fam": "curve", "kind": sc.get("kind")}, timeout=3000)
     v.samples = [scs[0], scs[-1]]
@@ -786,6 +797,7 @@ def c16(tier, seed):
     g, s2 = gen_scenarios("C16", "Gen_Curve", env={"FAM": "flatten", "NOPS": 5, "NVAR": 1, "SALT": seed}, simulate=3000 if th else 400, depth=14, seed=seed, workers=1)
     v.add_tlc(g)
     scs += s2
+    scs += drive("C16", "flatten", seed, 5000 if th else 800)
     scs += known_scenarios("C16", "flatten")
     simple_validate("C16", v, scs, "all", "Trace_Flatten", sigfn=lambda sc, tup: {"fam": "flatten", "what": tup[3]}, timeout=3000)
     v.samples = [scs[0], scs[-1]]
@@ -831,6 +843,7 @@ def c07(tier, seed):
     # the canvas histories are also subject to the no-panic clause
     scs2 = canvas_gen("C07", v, "frame", 2, 10 if th else 4, salt=seed + 7)
     scs2 += canvas_gen("C07", v, "layer", 4, 3, draws=2, simulate=2000 if th else 300, depth=8, seed=seed, salt=seed + 7)
+    scs2 += drive("C07", "canvas", seed + 600, 3000 if th else 400)
     scs2 += known_scenarios("C07", "canvas")
     canvas_validate("C07", v, scs2, "canvas", {"C07"})
     v.samples = [scs[0], scs[len(scs) // 2], scs2[0]]
